@@ -233,3 +233,29 @@ var zzNeedMorePeers int
 
 //vrt:replace (*github.com/cenkalti/rain/v2/internal/announcer.DHTAnnouncer).NeedMorePeers github.com/cenkalti/rain/v2/torrent.zzDHTNeedMorePeers
 func zzDHTNeedMorePeers(a *announcer.DHTAnnouncer, val bool) { zzNeedMorePeers++ }
+
+func metainfoConcrete() *metainfo.Info {
+	return metainfo.ZZConcreteInfo(zzPieceLen, zzNumPieces, []int64{zzPieceLen * zzNumPieces}, false)
+}
+
+// zzSymbolicBitfield returns nil or a bitfield with arbitrary bits.
+func zzSymbolicBitfield() *bitfield.Bitfield {
+	if !vrt.Bool("resume_bitfield_present") {
+		return nil
+	}
+	bf := bitfield.New(zzNumPieces)
+	for i := uint32(0); i < zzNumPieces; i++ {
+		if vrt.Bool("resume_bit") {
+			bf.Set(i)
+		}
+	}
+	return bf
+}
+
+func zzFillAllocation(t *torrent, sto *zzStorage) {
+	al := t.allocator
+	for _, f := range t.info.Files {
+		sf, _, _ := sto.Open(f.Path, f.Length)
+		al.Files = append(al.Files, allocator.File{Storage: sf, Name: f.Path, Padding: f.Padding})
+	}
+}
